@@ -77,4 +77,10 @@ pub struct Scenario {
     pub linger_us: u64,
     /// application operations give up at this virtual time
     pub deadline_us: u64,
+    /// client address changes: (time, new ip too?)
+    #[serde(default)]
+    pub rebinds: Vec<(u64, bool)>,
+    /// connection id lifetime in seconds for both endpoints (0 = provider default: no expiry)
+    #[serde(default)]
+    pub cid_lifetime_s: u64,
 }
